@@ -2,7 +2,7 @@
 packBanner (C19, C20). -/
 import Simfile.Gen.Code.Dir
 import Simfile.Props.GenEq.Ext
-import Simfile.Props.GenEq.Load
+import Simfile.Props.GenEq.Basic
 namespace Simfile.GenEq
 open Simfile
 
